@@ -274,5 +274,7 @@ def run(chk, ctx):
     from . import round3
     round3.update_writes_back(chk, ctx)
     round3.json_write_through(chk, ctx)
+    from . import round5
+    round5.store_absence_by_truthiness(chk, ctx, "C20.R10")
     chk.assume("redis, pottery (RedisDict/RedisList) and collections.abc.MutableMapping behave as documented")
     chk.assume("Redis client-side caching sends an invalidation only for keys read through the tracked connection, once")
